@@ -45,6 +45,9 @@ fn fmt_any(a: &Any, s: &mut String) {
         Any::Number(n) => {
             if n.is_nan() {
                 s.push_str("NaN");
+            } else if *n == 0.0 {
+                // -0.0 == 0.0 as a value (the integer encodings of lib0 cannot carry the sign)
+                s.push('0');
             } else {
                 s.push_str(&format!("{}", n));
             }
